@@ -420,6 +420,9 @@ func Main(t *testing.T, property string, scs []Scenario) {
 			tp := NewTape(seed)
 			e := execOne(t, sc, seed, tp, false)
 			setDeadline(0, "")
+			if d := os.Getenv("VERIF_DUMP_EVENTS_SEED"); d != "" && d == fmt.Sprint(seed) { // debugging aid for determinism mismatches
+				_ = os.WriteFile(os.Getenv("VERIF_DUMP_EVENTS_FILE"), []byte(strings.Join(e.events, "\n")+"\n"), 0o644)
+			}
 			rec := &runRec{
 				T: "run", Seed: seed, Scenario: sc.Name, Digest: hex.EncodeToString(e.h[:8]), Probes: e.probes,
 				SimNs: e.simNanos, Steps: e.steps, WallUs: time.Since(t0).Microseconds(), TapeLen: tp.Pos(),
